@@ -155,6 +155,20 @@ pub fn initial_commitment_sigs(
     counterparty_sign_holder_commitment(&nctx, &cc, &mut t)
 }
 
+/// Set by `node explore --policy feelimit`: the node runs with a fee velocity limit of FEE_LIMIT Withdraw fees
+/// per hour and the projection reports how many fees are counted (Node.tla's `fee`, k.feeLimit).
+pub static TRACK_FEE: std::sync::atomic::AtomicBool = std::sync::atomic::AtomicBool::new(false);
+pub const WITHDRAW_FEE_MSAT: u64 = 1_000_000;
+pub const FEE_LIMIT: u64 = 2;
+
+pub fn feelimit_policy(network: bitcoin::Network) -> lightning_signer::policy::simple_validator::SimplePolicy {
+    use lightning_signer::util::velocity::{VelocityControlIntervalType, VelocityControlSpec};
+    let mut policy = lightning_signer::policy::simple_validator::make_default_simple_policy(network);
+    policy.fee_velocity_control =
+        VelocityControlSpec { limit_msat: FEE_LIMIT * WITHDRAW_FEE_MSAT, interval_type: VelocityControlIntervalType::Hourly };
+    policy
+}
+
 pub fn apply(fx: &NodeFx, r: &Value) -> Value {
     let op = r["op"].as_str().unwrap();
     let list = || -> Vec<String> {
@@ -269,6 +283,11 @@ pub fn project(fx: &NodeFx) -> Value {
             }
         }
     }
-    json!({"allow": allow, "inv": inv, "mark": mark, "chans": chans})
+    let fee = if TRACK_FEE.load(std::sync::atomic::Ordering::Relaxed) {
+        fx.node.get_state().fee_velocity_control.velocity() / WITHDRAW_FEE_MSAT
+    } else {
+        0
+    };
+    json!({"allow": allow, "inv": inv, "mark": mark, "chans": chans, "fee": fee})
 }
 
